@@ -103,6 +103,9 @@ that buffers one event, and every such value (read off the running library throu
 see harness/cmd/extract/reasmfacts.go) carries a monotonic clock reading, so a step of the wall clock between arrival
 and the next call neither delays nor hastens a delivery. A deadline that went through `UTC()`, `Round`, `Truncate` or
 an integer is a wall-clock reading: no history this harness can produce distinguishes it (stepping the system clock
-is not something a check may do), which is why it is an obligation. -/
+is not something a check may do), which is why it is an obligation. The third conjunct covers the other side of the comparison: reassembler.go calls no
+method on a `time.Time` that strips the reading or turns the time into a number (`clockStrips`, regenerated with
+go/types), so the value the deadline is compared with carries it too. -/
 theorem C19_timeout_on_the_monotonic_clock :
-    LA.Gen.ReasmFacts.deadlinesMonotonic ≠ [] ∧ LA.Gen.ReasmFacts.deadlinesMonotonic.all (· == true) = true := by decide
+    LA.Gen.ReasmFacts.deadlinesMonotonic ≠ [] ∧ LA.Gen.ReasmFacts.deadlinesMonotonic.all (· == true) = true ∧
+    LA.Gen.ReasmFacts.clockStrips = [] := by decide
